@@ -394,6 +394,21 @@ def _second_body(R, inst):
     return ["return y"]
 
 
+CNT_SRC = "@guppy.struct\nclass Cnt:\n    c: int\n    d: int\n"
+
+
+def _ctorv_body(R, inst):
+    # a (non-generic) struct constructor used as a first-class value inside a partially monomorphized
+    # function, the generic parameters being used afterwards
+    return [
+        "mk = Cnt",
+        f"w = mk({R.v('k')}, len(xs))",
+        f"if {R.v('b')}:",
+        f"    return x, w.c * 100 + w.d + int({R.v('n')})",
+        f"return xs[0], w.c - w.d" if False else f"return x, w.c - w.d - int({R.v('n')})",
+    ]
+
+
 def _vsum_body(R, inst):
     return [
         f"s = {R.v('k')}",
@@ -567,7 +582,11 @@ _reg(Tmpl("second", [("U", "type"), ("T", "type")],
           S("T"), _second_body,
           type_pool={"T": TYPE_POOL + [("tuple", ()), ("tuple", (INT,)), ("tuple", (("tuple", (BOOL,)),)), ("tuple", (FLOAT,))]}))
 
-ROOTS = ["second", "second", "depfwd", "depfwd", "pick", "rot", "wrap", "unbox", "dep", "vsum", "app", "fsc", "fsc", "sel", "sel", "outer1", "outer1",
+_reg(Tmpl("ctorv", [("T", "type"), ("n", "size"), ("k", "int"), ("b", "bool")],
+          [("x", S("T"), False), ("xs", ("array", S("T"), S("n")), False), ("k", "comptime"), ("b", "comptime")],
+          ("tuple", (S("T"), INT)), _ctorv_body))
+
+ROOTS = ["ctorv", "ctorv", "second", "second", "depfwd", "depfwd", "pick", "rot", "wrap", "unbox", "dep", "vsum", "app", "fsc", "fsc", "sel", "sel", "outer1", "outer1",
          "outer2", "outer2", "chain", "chain", "twice", "hof", "hof"]
 DEPS = {"depfwd": ["dep"], "outer1": ["pick"], "outer2": ["unbox", "dep"], "chain": ["outer1", "pick"], "twice": ["wrap"], "hof": ["app"]}
 
@@ -875,7 +894,8 @@ class Program:
         gtxt = "\n".join(gen_fns) + "\n" + gen_main
         used_structs = [s for s in STRUCTS if (s + "[") in gtxt or (s + "(") in gtxt]
         helpers = "".join(src + "\n" for ty, (nm, src) in HELPERS.items() if nm in gtxt)
-        generic = ("\n".join(decl) + "\n\n" + "\n".join(self.render_generic_struct(s, ss) for s in used_structs)
+        cnt = CNT_SRC if "Cnt" in gtxt else ""
+        generic = ("\n".join(decl) + "\n\n" + cnt + "\n".join(self.render_generic_struct(s, ss) for s in used_structs)
                    + "\n" + helpers + gtxt)
         # specialised program
         self.structs_needed = []
@@ -889,10 +909,10 @@ class Program:
         stxt = [self.render_spec_struct(c) for c in self.structs_needed]
         stext = "\n".join(spec_fns) + "\n" + spec_main
         helpers2 = "".join(src + "\n" for ty, (nm, src) in HELPERS.items() if nm in stext)
-        spec = "\n".join(stxt) + "\n" + helpers2 + stext
+        spec = (CNT_SRC if "Cnt" in stext else "") + "\n".join(stxt) + "\n" + helpers2 + stext
         # one module with both versions: main() runs the generic call sites, then the specialised ones
         both_helpers = "".join(src + "\n" for ty, (nm, src) in HELPERS.items() if nm in gtxt or nm in stext)
-        combined = ("\n".join(decl) + "\n\n" + "\n".join(self.render_generic_struct(s, ss) for s in used_structs)
+        combined = ("\n".join(decl) + "\n\n" + cnt + "\n".join(self.render_generic_struct(s, ss) for s in used_structs)
                     + "\n" + "\n".join(stxt) + "\n" + both_helpers + "\n".join(gen_fns) + "\n" + "\n".join(spec_fns) + "\n"
                     + gen_main.replace("def main()", "def run_generic()") + "\n"
                     + spec_main.replace("def main()", "def run_spec()") + "\n"
